@@ -520,20 +520,22 @@ PROPS["C18"]["rule"] += (" c18core (CoreProbe): handle_channel_readable against 
     "model's (Model/Core.v chan_readable with its high-water check).")
 PROPS["C18"]["trusted_base"] = PROPS["C18"]["trusted_base"] + CORE_TRUSTED
 
-for _p in ("C05", "C04"):
+for _p in ("C05", "C04", "C08"):
     PROPS[_p]["check_mods"].append("C05l2")
     PROPS[_p]["drivers"].append({"name": "c05l2", "n_quick": 28, "n_thorough": 700, "timeout": 3000})
     PROPS[_p]["rule"] += (" End to end with threads (c05l2): a real connection, 1-3 caller threads each looping "
         "queue_declare with a fresh name on its own channel (every reply's name must be the caller's own: C04), a "
-        "consumer on another channel; after 3-60 ms the connection dies: EOF / reset / unparsable bytes / every "
+        "consumer on another channel; after 3-60 ms the connection ends: the client itself calls close() while the "
+        "callers are busy (C08) / EOF / reset / unparsable bytes / every "
         "write fails / server Connection.Close(320) (the broker sends nothing after it) / silence with h = 1 s / a "
         "frame that forces a client exception; then the threads are joined under a deadline, the consumer's "
         "receiver is read to its end, close() is called and the transport must be dropped.")
     PROPS[_p]["explanation"] += (" c05l2: close() must report what the Core model ends with for that failure "
         "(term_outcome / the write path / final_result / heartbeat_timers); oracle: no thread hangs, every caller "
         "gets an error within 3 s of the failure (4.5 s for silence: 2h + slack), the consumer's queue is "
-        "disconnected (after ServerClosedConnection for a server close), the transport is released, and no caller "
-        "ever received a reply to somebody else's call.")
+        "disconnected (after ServerClosedConnection for a server close, ClientClosedConnection for the client's own), "
+        "the transport is released, no caller ever received a reply to somebody else's call, and after the client's "
+        "own close() (which returns Ok) the wire is whole frames ending with its Connection.Close.")
     PROPS[_p]["trusted_base"] = PROPS[_p]["trusted_base"] + L2_TRUSTED
 
 # properties not claimed, with the reason (kept current)
